@@ -1802,6 +1802,26 @@ func poolRunCloseScenario(t *testing.T, cfg poolCloseCfg, rep *vreport, rng *vrn
 		}
 		poolWaitFor(700*time.Millisecond, func() bool { return poolSessionCount(l)-before == cfg.Clients })
 		createdAfterClose = poolSessionCount(l) - before
+	case "dispatch-races-close":
+		// Listener.Close runs to completion (die closed, backlog drained) while the monitor goroutine is
+		// in the middle of dispatching the first datagram of a new peer: it has passed its own die test
+		// and is parked on the table lock, just before it queues the session.  Whoever loses the race,
+		// the session nobody can reach must end up closed.
+		l.sessionLock.RLock()
+		for i := 0; i < cfg.Clients; i++ {
+			p := mkClient(i)
+			p.s.Write(p.send[:600])
+		}
+		parked := poolWaitFor(3*time.Second, func() bool {
+			return poolGoroutines()["postProcess"] >= base["postProcess"]+cfg.Clients+1
+		})
+		time.Sleep(5 * time.Millisecond)
+		l.Close()
+		l.sessionLock.RUnlock()
+		if !parked {
+			rep.Distribution["dispatch_races_close_not_parked"]++
+		}
+		poolWaitFor(300*time.Millisecond, func() bool { return poolSessionCount(l) == 0 && len(l.chAccepts) == 0 })
 	default:
 		accepted := make(chan *UDPSession, cfg.Clients)
 		go func() {
@@ -2092,6 +2112,17 @@ func TestVerifC15Close(t *testing.T) {
 	poolRunCloseScenario(t, poolCloseCfg{Name: "backlog/own=true", Point: "backlog", Order: all, Own: true, Clients: 3, Cipher: "none"}, rep, rng, pump, grace)
 	poolRunCloseScenario(t, poolCloseCfg{Name: "backlog/own=false", Point: "backlog", Order: []string{"listener", "client", "transport"}, Own: false, Clients: 2, Cipher: "aes"}, rep, rng, pump, grace)
 	poolRunCloseScenario(t, poolCloseCfg{Name: "dispatch-after-close/own=false", Point: "dispatch-after-close", Order: []string{"client", "transport"}, Own: false, Clients: 2, Cipher: "none"}, rep, rng, pump, grace)
+
+	// Listener.Close completing inside the monitor's dispatch of a new peer (a select between the die
+	// channel and the accept queue would pick either arm: several rounds)
+	rounds := 10
+	if vThorough() {
+		rounds = 24
+	}
+	for i := 0; i < rounds; i++ {
+		poolRunCloseScenario(t, poolCloseCfg{Name: fmt.Sprintf("dispatch-races-close/%d/own=%v", i, i%2 == 0), Point: "dispatch-races-close",
+			Order: []string{"listener", "client", "transport"}, Own: i%2 == 0, Clients: 1, Cipher: poolPickS(rng, "none", "aes")}, rep, rng, pump, grace)
+	}
 
 	for _, c := range scen {
 		poolRunCloseScenario(t, c, rep, rng, pump, grace)
